@@ -18,6 +18,7 @@ CLAIMED = {
  "C11": ("CellBytes NEWDECIMAL for (p,s) pairs (quick: all p<=20 plus group-boundary precisions, 278 pairs; thorough: all 1580 valid pairs): every storage byte symbolic, every representable value; the text is scanned ('-', canonical integer digits, '.', exactly s digits) and every 9-digit group proved equal to the reference from MySQL decimal.c; cellLength agreement included", "DESIGN.md 3/C11"),
  "C12": ("CellBytes DATE/NEWDATE, old TIME/DATETIME/TIMESTAMP, TIMESTAMP2/DATETIME2/TIME2 with fsp 0..6: output text scanned field by field (separators, widths, digits) and every numeric field proved equal to a reference decoder written from MySQL's my_time.c, for all cell bytes denoting valid values (all 2^24..2^48 raw values symbolic); TIMESTAMP fields are the Local-zone calendar fields (uninterpreted functions of (zone, instant))", "DESIGN.md 3/C12"),
  "C13": ("CellBytes for VARCHAR/VAR_STRING/STRING/TINY..LONG BLOB/GEOMETRY with symbolic metadata (decides 1..4 prefix bytes), symbolic prefix and payload in buffers of 40 and 300 bytes (thorough 1200): value is non-nil, has exactly the logged length and its i-th byte is the logged byte for a universally quantified index i; consumed = prefix+length; cellLength agrees", "DESIGN.md 3/C13"),
+ "C14": ("printJSONData / CellBytes(TypeJSON) on documents laid out by an independent binary-JSON writer (after json_binary.cc) in the small and the large format: (a) every scalar kind (literals, int16/uint16/int32/uint32/int64/uint64 over their full ranges, double via strconv's contract, strings, opaque DATE/TIME incl. both signs/DATETIME packed fields, opaque DECIMAL) at top level, inlined and out-of-line inside arrays and objects; (b) all document structures of depth <= 2 (thorough 3), fan-out <= 2 over cheap scalars and nested arrays/objects: rendered text proved byte-equal to a reference rendering of the document (keys, values, order, nesting)", "DESIGN.md 3/C14"),
  "C15": ("binlogEvent.TableMap/TableID on events from an independent writer: names (0..255 bytes), flags, 4/6-byte table ids, 1-2 (thorough 3) columns over ALL pairs of the 31 supported types with symbolic metadata bytes (byte order per type), nullability bits, trailing optional-metadata bytes, and 250/251/252 (thorough 300/600) columns with multi-byte column counts. Second half (VH_C15_Cache): parseEvents with two table ids, re-announcements with changed column types inside and across transactions: rows attributed to the announced table, decoded with the most recent table map, column names from the mapper by ordinal, mapper consulted once per id with the announced names; column-count mismatch -> error (C04 fault kind 2)", "DESIGN.md 3/C15"),
  "C16": ("header accessors and Format/Rotate/Query/IntVar/Rand on events from an independent writer with every field symbolic: format description (server version 0/5/50 bytes, header-size tables of 27/38 (thorough 165/255) entries, checksum byte, version!=4 and header length<19 rejected), rotate (64-bit position, names 0..16 bytes), query (all MySQL-order subsets of status variables 0,1,6|2,3,4,5,7,8..20 with arbitrary payloads, db 0/3 (thorough ..255) bytes, SQL 0/5 (thorough 70000) bytes, charset iff Q_CHARSET_CODE), intvar/rand; each for checksum off / CRC32 (4 arbitrary trailing bytes) / undefined and for both flavors' StripChecksum", "DESIGN.md 3/C16"),
  "C18": ("Mysql56GTIDSet.AddGTID/ContainsGTID/Contains/Equal from ARBITRARY canonical pre-states: interval lists of length 0..3 (thorough 0..5) with symbolic 63-bit bounds under the canonical-form invariant, 1-3 SIDs, both map iteration orders; AddGTID result proved equal to the union for a universally quantified probe element, canonical again, original map and slices unchanged; Contains/Equal proved equal to a finite interval characterisation which is itself linked to the element-wise meaning by solver lemmas; plus sequences of 2-3 (thorough 5) AddGTID from the empty set", "DESIGN.md 3/C18"),
